@@ -197,5 +197,6 @@ LEVEL_TEXT = ('Generated-input search over filter pairs, level counts and image 
               'operator (basis images, images <= 192 pixels) and on dense inputs up to 40x40, including pyramid '
               'shapes, subband order and real/imag placement. Thorough tier visits all 24 pairs x J 1..4.')
 LEVEL_TEXT += (' Also generated: filters as arrays, output layouts (o_dim, ri_dim) for the dense comparison, modules with a past, amplitude scales, autograd contexts.')
+LEVEL_TEXT += (' Round 10: a sibling transform with another filter pair constructed and used between construction and use.')
 LEVEL_NOTE = 'Trusts dtcwt 0.14 (NumPy backend) and linearity (C07); sampled sizes <= 40x40, J <= 5.'
 TECHNIQUE = 'property-based testing (Hypothesis), differential oracle NumPy dtcwt on extracted operators'
